@@ -26,6 +26,9 @@ package agent
 //                   the registered connection, the routes through that identity and the relay entries untouched
 //   duplicate       registerConnection for a second connection must not replace a live registered one
 //   dead frames     frames released on a link whose local end was rejected / closed never reach processFrame
+//   dead generation once registerConnection has kept a new connection (and before any frame of it has been
+//                   released) nothing of an earlier connection generation is left: no route through that identity,
+//                   no relay entry with it (Manager.Disconnect / DisconnectAll unregister without the callback)
 //
 // Mismatch classes: "viol" = one of the above, or the spec-vs-code difference is exactly such a loss;
 // "diverged" = anything else (the harness / spec no longer describes the code: infrastructure, not a verdict).
@@ -693,6 +696,14 @@ func (w *zzvRegWorld) awaitRegister(x string, l int, before int, _ int) {
 		w.mu.Lock()
 		w.kept[c] = true
 		w.mu.Unlock()
+		if x == "a" { // no frame of the new connection has been released yet: whatever a holds for b is old
+			if w.hasRoute() {
+				w.oracle = append(w.oracle, fmt.Sprintf("dead generation: routes learned over an earlier connection survived the registration of connection %d at a", l))
+			}
+			if n := w.relayCount(); n > 0 {
+				w.oracle = append(w.oracle, fmt.Sprintf("dead generation: %d relay entries of an earlier connection survived the registration of connection %d at a", n, l))
+			}
+		}
 		// the new read loop must be blocked in Read before the schedule goes on: a read loop that finds its
 		// connection already closed when it starts ends without a teardown (a behaviour the spec does not model)
 		w.awaitReaders(fmt.Sprintf("read loop of %s for link %d did not start reading", x, l))
@@ -1348,7 +1359,8 @@ func zzvBlockedRegistrations() int {
 	}
 	cnt := 0
 	for _, g := range strings.Split(string(buf), "\n\n") {
-		if strings.Contains(g, "(*Manager).registerConnection") && strings.Contains(g, "sync.(*RWMutex)") {
+		if strings.Contains(g, "(*Manager).registerConnection") &&
+			(strings.Contains(g, "sync.(*RWMutex)") || strings.Contains(g, "sync.(*Mutex).Lock")) {
 			cnt++
 		}
 	}
